@@ -178,7 +178,13 @@ class TTElement(TTMLElement):
 
     tt_ctx.temporal_context.frame_rate = imsc_attr.FrameRateAttribute.extract(xml_elem)
 
-    tt_ctx.temporal_context.tick_rate = imsc_attr.TickRateAttribute.extract(xml_elem)
+    tick_rate = imsc_attr.TickRateAttribute.extract(xml_elem)
+
+    if tick_rate is None:
+      # in the absence of ttp:tickRate, the tick rate is the effective frame rate if ttp:frameRate is specified, and 1 otherwise
+      tick_rate = tt_ctx.temporal_context.frame_rate if imsc_attr.FrameRateAttribute.is_specified(xml_elem) else 1
+
+    tt_ctx.temporal_context.tick_rate = tick_rate
 
     # process head and body children elements
 
